@@ -1,10 +1,10 @@
 #!/bin/sh
 # tools/seed_matrix.sh : apply every seeded change in turn to /repo, run the quick check of the property it breaks, restore /repo.
 # Output: one line per seed in /verif/seeded/MATRIX.txt
-OUT=/verif/seeded/MATRIX.txt
+OUT=/verif/seeded/MATRIX${2:-}.txt
 : > $OUT
 cd /repo && git diff --quiet || { echo "/repo not clean"; exit 2; }
-for d in /verif/seeded/C*_*; do
+for d in /verif/seeded/${1:-C*_*}; do
   k=$(basename $d)
   prop=$(/venv/bin/python -c "import json,sys; print(json.load(open('$d/meta.json')).get('property','$(echo $k | cut -d_ -f1)'))" 2>/dev/null || echo $(echo $k | cut -d_ -f1))
   git -C /repo apply $d/patch.diff || { echo "$k $prop APPLY-FAILED" >> $OUT; continue; }
